@@ -2,6 +2,7 @@
 package main
 
 import (
+	"bytes"
 	"fmt"
 	"io"
 	"unicode/utf8"
@@ -233,6 +234,8 @@ type msg struct {
 	frags [][]byte
 }
 
+var ctlLens = []int{2, 125, 0, 1, 124, 125, 64}
+
 func buildFrames(c *mon.C, ms []msg, side ref.Side) []ref.Frame {
 	var shapes []gen.Shape
 	var payloads [][]byte
@@ -252,8 +255,15 @@ func buildFrames(c *mon.C, ms []msg, side ref.Side) []ref.Frame {
 		for fi, f := range frags {
 			if fi > 0 {
 				if m.pings>>uint(fi)&1 == 1 {
-					shapes = append(shapes, gen.Shape{Op: ref.OpPing, Fin: true, Len: 2})
-					payloads = append(payloads, []byte("pi"))
+					// every legal control payload size, the two ends of the range above all; the payload
+					// itself is bytes that are no UTF-8 (a control frame is not part of the text)
+					n := ctlLens[(fi+int(m.pings>>58)+len(m.payload))%len(ctlLens)]
+					cop := byte(ref.OpPing)
+					if (fi+int(m.pings>>57))%3 == 0 {
+						cop = ref.OpPong
+					}
+					shapes = append(shapes, gen.Shape{Op: cop, Fin: true, Len: n})
+					payloads = append(payloads, bytes.Repeat([]byte{0xC0 | byte(fi)}, n))
 				}
 				if m.empties>>uint(fi)&1 == 1 {
 					shapes = append(shapes, gen.Shape{Op: ref.OpCont, Fin: false, Len: 0})
